@@ -2,6 +2,10 @@
 // call) into one global log; each hook can be told to panic with an error, a string or another value. The real
 // graphql.Do is run on requests of every outcome class under generated fault assignments and compared with the
 // Lean model Ext.run; the specification predicates of Props/C17 are evaluated by the driver on the REAL log.
+// Besides graphql.Do on a live context the harness covers: plans obtained through PlanQuery / PlanCache before and
+// after Schema.AddExtensions and executed (also repeatedly, with other variable values) through ExecutePlan;
+// documents with variable-driven @skip/@include on fields, inline fragments and fragment spreads; and request
+// contexts that are cancelled or past their deadline before the call, while a resolver runs, or in a finish hook.
 // No defect class is recorded for C17 (D-17a..d are repaired in /repo): every disagreement, every failing
 // predicate and every panic escaping graphql.Do is a violation.
 package main
@@ -11,14 +15,17 @@ import (
 	"errors"
 	"fmt"
 	"regexp"
+	"runtime"
 	"sort"
 	"strconv"
 	"strings"
 	"sync"
+	"sync/atomic"
 	"time"
 
 	"github.com/graphql-go/graphql"
 	"github.com/graphql-go/graphql/gqlerrors"
+	"github.com/graphql-go/graphql/language/parser"
 
 	"verif/harness/hx"
 )
@@ -66,11 +73,23 @@ type reqT struct {
 	Query  string                 `json:"query"`
 	Vars   map[string]interface{} `json:"vars,omitempty"`
 	Shape  string                 `json:"shape"`
+	// Table: response key -> [index in Fields, outcome] for the fields that run under Vars; nil = the keys are "k<i>"
+	Table map[string][]int `json:"table,omitempty"`
 }
 
+// entry points: "" / "do" graphql.Do on a schema built with its extensions; "do-addext" graphql.Do on a schema
+// that got its extensions through AddExtensions; "plan" PlanQuery then ExecutePlan; "plan-before" PlanQuery BEFORE
+// AddExtensions then ExecutePlan; "cache" / "cache-before" the same through PlanCache.Get (second Get = hit).
+// context: "" live; "cancelled-before", "deadline-before" (done before the call); "cancel-in-resolver",
+// "deadline-in-resolver" (done while the resolver of executed field CtxAt is running); "cancel-in-finish" (cancelled
+// inside the first ExecutionFinishFunc, i.e. after ExecutePlan's select).
 type caseT struct {
-	Exts []extCfg `json:"exts"`
-	Req  reqT     `json:"req"`
+	Exts  []extCfg `json:"exts"`
+	Req   reqT     `json:"req"`
+	Entry string   `json:"entry,omitempty"`
+	Ctx   string   `json:"ctx,omitempty"`
+	CtxAt int      `json:"ctxAt,omitempty"`
+	Req2  *reqT    `json:"req2,omitempty"` // entries plan/cache: the same plan executed again with these variables
 }
 
 type evT struct {
@@ -83,11 +102,10 @@ func (e evT) wire() []int { return []int{e.name, e.hook, e.fld, e.out, e.fault} 
 // ---------------------------------------------------------------- the instrumented world (one case at a time)
 
 var (
-	mu       sync.Mutex
-	curExts  []extCfg
-	curOut   map[string]int // response key -> resolver outcome
-	curLog   []evT
-	unlisted int
+	mu      sync.Mutex
+	curExts []extCfg
+	curTab  map[string][]int // response key -> [index, outcome]
+	curLog  []evT
 )
 
 func logEv(e evT) {
@@ -96,12 +114,60 @@ func logEv(e evT) {
 	mu.Unlock()
 }
 
+// gate: lets the harness hold the executor goroutine at a chosen point while the request context is done
+var gate struct {
+	mode    int32 // 0 off; 1 hold the first executor-side event (before it is logged); 2 hold the resolver of field at (after it is logged); 4 cancel inside the first ExecutionFinishFunc
+	at      int
+	armed   int32
+	entered chan struct{}
+	release chan struct{}
+	ctx     context.Context
+	cancel  context.CancelFunc
+}
+
+// manualCtx: a context whose deadline "expires" when expire is called
+type manualCtx struct {
+	done     chan struct{}
+	deadline time.Time
+	once     sync.Once
+	fired    int32
+}
+
+func (c *manualCtx) Deadline() (time.Time, bool)   { return c.deadline, true }
+func (c *manualCtx) Done() <-chan struct{}         { return c.done }
+func (c *manualCtx) Value(interface{}) interface{} { return nil }
+func (c *manualCtx) Err() error {
+	if atomic.LoadInt32(&c.fired) == 1 {
+		return context.DeadlineExceeded
+	}
+	return nil
+}
+func (c *manualCtx) expire() {
+	c.once.Do(func() {
+		atomic.StoreInt32(&c.fired, 1)
+		close(c.done)
+	})
+}
+
+func gateFirst() {
+	if atomic.LoadInt32(&gate.mode) == 1 && atomic.CompareAndSwapInt32(&gate.armed, 1, 0) {
+		close(gate.entered)
+		<-gate.release
+	}
+}
+
 type tExt struct{ idx int }
 
 func (e *tExt) cfg() extCfg { return curExts[e.idx] }
 
 // call logs the hook call and then shows the configured behaviour
 func (e *tExt) call(hook, fld, out int) {
+	if hook == hResStart {
+		gateFirst()
+	}
+	if hook == hExecEnd && atomic.LoadInt32(&gate.mode) == 4 && atomic.CompareAndSwapInt32(&gate.armed, 1, 0) {
+		gate.cancel()
+	}
 	c := e.cfg()
 	f := c.Beh[hook]
 	logEv(evT{idx: e.idx, name: c.Name, hook: hook, fld: fld, out: out, fault: f})
@@ -170,12 +236,13 @@ func (e *tExt) GetResult(ctx context.Context) interface{} {
 	return "r"
 }
 
-// keyIndex: response keys of fields the model expects to run are "k<i>"; anything else is a field that must not run
+// keyIndex: the index (in the executed-field list handed to the model) of the field with this response key; a key
+// that is not in the table belongs to a field that must not run
 func keyIndex(p *graphql.ResponsePath) int {
 	if p != nil {
-		if s, ok := p.Key.(string); ok && strings.HasPrefix(s, "k") {
-			if n, err := strconv.Atoi(s[1:]); err == nil {
-				return n
+		if s, ok := p.Key.(string); ok {
+			if e, ok := curTab[s]; ok {
+				return e[0]
 			}
 		}
 	}
@@ -183,11 +250,12 @@ func keyIndex(p *graphql.ResponsePath) int {
 }
 
 func resolve(p graphql.ResolveParams) (interface{}, error) {
+	gateFirst()
 	key, _ := p.Info.Path.Key.(string)
 	fld := keyIndex(p.Info.Path)
-	oc, ok := curOut[key]
-	if !ok {
-		oc = 0
+	oc := 0
+	if e, ok := curTab[key]; ok {
+		oc = e[1]
 	}
 	o, f := outOk, 0
 	if oc != 0 {
@@ -197,6 +265,10 @@ func resolve(p graphql.ResolveParams) (interface{}, error) {
 		f = 3
 	}
 	logEv(evT{idx: -1, name: 0, hook: hResolver, fld: fld, out: o, fault: f})
+	if m := atomic.LoadInt32(&gate.mode); m == 2 && fld == gate.at && atomic.CompareAndSwapInt32(&gate.armed, 1, 0) {
+		close(gate.entered)
+		<-gate.release
+	}
 	switch oc {
 	case 1, 3:
 		return nil, errors.New("field failed")
@@ -216,36 +288,44 @@ var (
 	schemas [maxExt + 1]graphql.Schema
 )
 
+func newSchema(exts []graphql.Extension) (graphql.Schema, error) {
+	var objT *graphql.Object
+	objT = graphql.NewObject(graphql.ObjectConfig{Name: "Obj", Fields: (graphql.FieldsThunk)(func() graphql.Fields {
+		return graphql.Fields{
+			"c": &graphql.Field{Type: graphql.String, Resolve: resolve},
+			"o": &graphql.Field{Type: objT, Resolve: resolve},
+		}
+	})})
+	rootFields := func() graphql.Fields {
+		return graphql.Fields{
+			"f": &graphql.Field{Type: graphql.String, Resolve: resolve},
+			"g": &graphql.Field{Type: graphql.NewNonNull(graphql.String), Resolve: resolve},
+			"o": &graphql.Field{Type: objT, Resolve: resolve},
+			"h": &graphql.Field{Type: graphql.String, Args: graphql.FieldConfigArgument{"a": &graphql.ArgumentConfig{Type: graphql.Int}}, Resolve: resolve},
+		}
+	}
+	return graphql.NewSchema(graphql.SchemaConfig{
+		Query:      graphql.NewObject(graphql.ObjectConfig{Name: "Query", Fields: rootFields()}),
+		Mutation:   graphql.NewObject(graphql.ObjectConfig{Name: "Mutation", Fields: rootFields()}),
+		Extensions: exts,
+	})
+}
+
+func poolExts(n int) []graphql.Extension {
+	exts := []graphql.Extension{}
+	for i := 0; i < n; i++ {
+		exts = append(exts, pool[i])
+	}
+	return exts
+}
+
 func buildSchemas() error {
 	for i := range pool {
 		pool[i] = &tExt{idx: i}
 	}
+	curExts = make([]extCfg, maxExt) // Name() may be called while a schema is built
 	for n := 0; n <= maxExt; n++ {
-		var objT *graphql.Object
-		objT = graphql.NewObject(graphql.ObjectConfig{Name: "Obj", Fields: (graphql.FieldsThunk)(func() graphql.Fields {
-			return graphql.Fields{
-				"c": &graphql.Field{Type: graphql.String, Resolve: resolve},
-				"o": &graphql.Field{Type: objT, Resolve: resolve},
-			}
-		})})
-		rootFields := func() graphql.Fields {
-			return graphql.Fields{
-				"f": &graphql.Field{Type: graphql.String, Resolve: resolve},
-				"g": &graphql.Field{Type: graphql.NewNonNull(graphql.String), Resolve: resolve},
-				"o": &graphql.Field{Type: objT, Resolve: resolve},
-				"h": &graphql.Field{Type: graphql.String, Args: graphql.FieldConfigArgument{"a": &graphql.ArgumentConfig{Type: graphql.Int}}, Resolve: resolve},
-			}
-		}
-		exts := []graphql.Extension{}
-		for i := 0; i < n; i++ {
-			exts = append(exts, pool[i])
-		}
-		curExts = make([]extCfg, maxExt) // Name() may be called while the schema is built
-		s, err := graphql.NewSchema(graphql.SchemaConfig{
-			Query:      graphql.NewObject(graphql.ObjectConfig{Name: "Query", Fields: rootFields()}),
-			Mutation:   graphql.NewObject(graphql.ObjectConfig{Name: "Mutation", Fields: rootFields()}),
-			Extensions: exts,
-		})
+		s, err := newSchema(poolExts(n))
 		if err != nil {
 			return err
 		}
@@ -256,63 +336,146 @@ func buildSchemas() error {
 
 // ---------------------------------------------------------------- request shapes
 
-// fieldSpec: kind f (String), g (String!, root only), o (Obj with children); outcome 0..4
+// fieldSpec: kind f (String), g (String!, root only), o (Obj with children): a field with resolver outcome 0..4;
+// kind "inline" / "spread": an inline fragment / a spread of a named fragment wrapping Children (same parent type).
+// Dir: 0 none, 1 @include, 2 @skip; DirVar >= 0: `if: $w<DirVar>`, else the literal DirLit.
 type fieldSpec struct {
 	Kind     string
 	Outcome  int
 	Children []fieldSpec
+	Dir      int
+	DirVar   int
+	DirLit   bool
 }
 
-// render assigns the response keys: "k<i>" for the i-th entry of the flattened list handed to the model (root fields
-// and children of succeeding parents, depth first), "u<j>" for children of a failing parent (must never run).
-func render(fs []fieldSpec, mutation bool) (query string, flat []int, outcomes map[string]int) {
-	outcomes = map[string]int{}
-	u := 0
-	var sel func(fs []fieldSpec, live bool, root bool) string
-	sel = func(fs []fieldSpec, live bool, root bool) string {
+func (f fieldSpec) active(vars map[string]interface{}) bool {
+	if f.Dir == 0 {
+		return true
+	}
+	v := f.DirLit
+	if f.DirVar >= 0 {
+		v, _ = vars["w"+strconv.Itoa(f.DirVar)].(bool)
+	}
+	if f.Dir == 1 {
+		return v
+	}
+	return !v
+}
+
+func (f fieldSpec) dirText(used map[int]bool) string {
+	if f.Dir == 0 {
+		return ""
+	}
+	name := "@include"
+	if f.Dir == 2 {
+		name = "@skip"
+	}
+	if f.DirVar >= 0 {
+		used[f.DirVar] = true
+		return " " + name + "(if: $w" + strconv.Itoa(f.DirVar) + ")"
+	}
+	return " " + name + "(if: " + strconv.FormatBool(f.DirLit) + ")"
+}
+
+// render produces the document (every field under its own response key "a<n>", n in text order) and, for the given
+// variable values, the list of fields that run in execution order (depth first; not: fields excluded by a
+// directive, children of a failing parent) with the table response key -> [index, outcome].
+func render(fs []fieldSpec, mutation bool, vars map[string]interface{}) (query string, flat []int, table map[string][]int) {
+	table = map[string][]int{}
+	used := map[int]bool{}
+	nKey, nFrag := 0, 0
+	frags := ""
+	rootType := "Query"
+	if mutation {
+		rootType = "Mutation"
+	}
+	var sel func(fs []fieldSpec, live bool, root bool, typ string) string
+	sel = func(fs []fieldSpec, live bool, root bool, typ string) string {
 		var b strings.Builder
 		b.WriteString("{ ")
 		for _, f := range fs {
-			var key string
-			if live {
-				key = "k" + strconv.Itoa(len(flat))
-				flat = append(flat, f.Outcome)
-			} else {
-				key = "u" + strconv.Itoa(u)
-				u++
-			}
-			outcomes[key] = f.Outcome
-			name := f.Kind
-			if !root && name == "f" {
-				name = "c"
-			}
-			b.WriteString(key + ": " + name + " ")
-			if f.Kind == "o" {
-				b.WriteString(sel(f.Children, live && f.Outcome == 0, false))
+			act := live && f.active(vars)
+			switch f.Kind {
+			case "inline":
+				b.WriteString("... on " + typ + f.dirText(used) + " " + sel(f.Children, act, root, typ))
+			case "spread":
+				name := "F" + strconv.Itoa(nFrag)
+				nFrag++
+				b.WriteString("..." + name + f.dirText(used) + " ")
+				body := sel(f.Children, act, root, typ)
+				frags += "fragment " + name + " on " + typ + " " + body
+			default:
+				key := "a" + strconv.Itoa(nKey)
+				nKey++
+				if act {
+					table[key] = []int{len(flat), f.Outcome}
+					flat = append(flat, f.Outcome)
+				}
+				name := f.Kind
+				if !root && name == "f" {
+					name = "c"
+				}
+				b.WriteString(key + ": " + name + f.dirText(used) + " ")
+				if f.Kind == "o" {
+					b.WriteString(sel(f.Children, act && f.Outcome == 0, false, "Obj"))
+				}
 			}
 		}
 		b.WriteString("} ")
 		return b.String()
 	}
-	body := sel(fs, true, true)
+	body := sel(fs, true, true, rootType)
+	op := "query Q"
 	if mutation {
-		return "mutation " + body, flat, outcomes
+		op = "mutation Q"
 	}
-	return body, flat, outcomes
+	if len(used) > 0 {
+		ids := []int{}
+		for i := range used {
+			ids = append(ids, i)
+		}
+		sort.Ints(ids)
+		decl := []string{}
+		for _, i := range ids {
+			decl = append(decl, "$w"+strconv.Itoa(i)+": Boolean!")
+		}
+		op += "(" + strings.Join(decl, ", ") + ")"
+	}
+	if flat == nil {
+		flat = []int{}
+	}
+	return op + " " + body + frags, flat, table
+}
+
+func execReqV(shape string, fs []fieldSpec, mutation bool, vars map[string]interface{}) reqT {
+	q, flat, table := render(fs, mutation, vars)
+	r := reqT{Class: "exec", Fields: flat, Query: q, Shape: shape, Table: table}
+	if len(vars) > 0 {
+		// only the variables the document declares
+		r.Vars = map[string]interface{}{}
+		for k, v := range vars {
+			if strings.Contains(q, "$"+k+":") {
+				r.Vars[k] = v
+			}
+		}
+	}
+	return r
 }
 
 func execReq(shape string, fs []fieldSpec, mutation bool) reqT {
-	q, flat, _ := render(fs, mutation)
-	return reqT{Class: "exec", Fields: flat, Query: q, Shape: shape}
+	return execReqV(shape, fs, mutation, nil)
 }
 
-// outcomesOf re-derives the resolver table from the query text of an exec request (so a replay needs only the case)
-func outcomesOf(r reqT) map[string]int {
-	m := map[string]int{}
-	for i, o := range r.Fields {
-		m["k"+strconv.Itoa(i)] = o
+// tableOf: the resolver table of a request (older replay files name the keys "k<i>")
+func tableOf(r reqT) map[string][]int {
+	if r.Table != nil {
+		return r.Table
 	}
-	return m // "u…" keys default to outcome ok: if they run, the log shows fld 999
+	m := map[string][]int{}
+	for i, o := range r.Fields {
+		m["k"+strconv.Itoa(i)] = []int{i, o}
+	}
+	return m
 }
 
 func leafs(outs ...int) []fieldSpec {
@@ -322,7 +485,7 @@ func leafs(outs ...int) []fieldSpec {
 		if o >= 3 {
 			k = "g"
 		}
-		fs = append(fs, fieldSpec{Kind: k, Outcome: o})
+		fs = append(fs, fieldSpec{Kind: k, Outcome: o, DirVar: -1})
 	}
 	return fs
 }
@@ -353,7 +516,8 @@ func fixedReq(class string, variant int) reqT {
 // ---------------------------------------------------------------- running the real code
 
 type goResult struct {
-	Log      [][]int  `json:"log"`
+	Log      [][]int  `json:"log"`  // what was logged when the entry point returned
+	Late     [][]int  `json:"late"` // what the executor goroutine logged afterwards (context-done cases)
 	Errors   [][]int  `json:"errors"`
 	Messages []string `json:"messages"`
 	Keys     []int    `json:"keys"`
@@ -383,13 +547,114 @@ func wireLog(l []evT) [][]int {
 	return w
 }
 
-func runGo(c caseT) goResult {
+// prepared: everything that happens before the measured call (schema, AddExtensions, planning)
+type prepared struct {
+	schema *graphql.Schema
+	plan   *graphql.Plan
+	synth  map[string]interface{}
+	err    string
+}
+
+func prepare(c caseT) prepared {
+	n := len(c.Exts)
+	switch c.Entry {
+	case "", "do":
+		return prepared{schema: &schemas[n]}
+	case "do-addext":
+		s, err := newSchema(nil)
+		if err != nil {
+			return prepared{err: err.Error()}
+		}
+		s.AddExtensions(poolExts(n)...)
+		return prepared{schema: &s}
+	case "plan", "plan-before":
+		doc, err := parser.Parse(parser.ParseParams{Source: c.Req.Query})
+		if err != nil {
+			return prepared{err: "parse: " + err.Error()}
+		}
+		sp := &schemas[n]
+		if c.Entry == "plan-before" {
+			s, err := newSchema(nil)
+			if err != nil {
+				return prepared{err: err.Error()}
+			}
+			sp = &s
+		}
+		plan, err := graphql.PlanQuery(sp, doc, "")
+		if err != nil {
+			return prepared{err: "PlanQuery: " + err.Error()}
+		}
+		if c.Entry == "plan-before" {
+			sp.AddExtensions(poolExts(n)...)
+		}
+		return prepared{schema: sp, plan: plan}
+	case "cache", "cache-before":
+		cache := graphql.NewPlanCache(graphql.PlanCacheOptions{})
+		sp := &schemas[n]
+		if c.Entry == "cache-before" {
+			s, err := newSchema(nil)
+			if err != nil {
+				return prepared{err: err.Error()}
+			}
+			sp = &s
+		}
+		pr := cache.Get(sp, c.Req.Query, "")
+		if pr.Plan == nil {
+			return prepared{err: fmt.Sprintf("PlanCache.Get: %v", pr.Errors)}
+		}
+		if c.Entry == "cache-before" {
+			sp.AddExtensions(poolExts(n)...)
+		}
+		pr2 := cache.Get(sp, c.Req.Query, "") // the hit every later request gets
+		if pr2.Plan == nil {
+			return prepared{err: fmt.Sprintf("PlanCache.Get (2nd): %v", pr2.Errors)}
+		}
+		return prepared{schema: sp, plan: pr2.Plan, synth: pr2.SynthArgs}
+	}
+	return prepared{err: "unknown entry " + c.Entry}
+}
+
+// runGo performs one measured call (graphql.Do or ExecutePlan) for request rq of case c.
+func runGo(c caseT, pp prepared, rq reqT) goResult {
 	mu.Lock()
 	curExts = make([]extCfg, maxExt)
 	copy(curExts, c.Exts)
-	curOut = outcomesOf(c.Req)
+	curTab = tableOf(rq)
 	curLog = nil
 	mu.Unlock()
+
+	ctx := context.Background()
+	cancel := func() {}
+	mode := int32(0)
+	switch c.Ctx {
+	case "cancelled-before":
+		ctx, cancel = context.WithCancel(ctx)
+		cancel()
+		mode = 1
+	case "deadline-before":
+		ctx, cancel = context.WithDeadline(ctx, time.Now().Add(-time.Second))
+		mode = 1
+	case "cancel-in-resolver":
+		ctx, cancel = context.WithCancel(ctx)
+		mode = 2
+	case "deadline-in-resolver":
+		// a deadline that expires exactly when the harness says so (a real timer would race with the executor)
+		mc := &manualCtx{done: make(chan struct{}), deadline: time.Now()}
+		ctx, cancel = mc, mc.expire
+		mode = 2
+	case "cancel-in-finish":
+		ctx, cancel = context.WithCancel(ctx)
+		mode = 4
+	}
+	defer cancel()
+	gate.at = c.CtxAt
+	gate.entered = make(chan struct{})
+	gate.release = make(chan struct{})
+	gate.ctx, gate.cancel = ctx, cancel
+	atomic.StoreInt32(&gate.armed, 1)
+	atomic.StoreInt32(&gate.mode, mode)
+	baseline := runtime.NumGoroutine()
+
 	var res *graphql.Result
 	var escaped interface{}
 	done := make(chan struct{})
@@ -400,25 +665,76 @@ func runGo(c caseT) goResult {
 				escaped = r
 			}
 		}()
-		res = graphql.Do(graphql.Params{Schema: schemas[len(c.Exts)], RequestString: c.Req.Query, VariableValues: c.Req.Vars, Context: context.Background()})
+		vars := rq.Vars
+		if pp.plan != nil {
+			if len(pp.synth) > 0 {
+				merged := map[string]interface{}{}
+				for k, v := range vars {
+					merged[k] = v
+				}
+				for k, v := range pp.synth {
+					merged[k] = v
+				}
+				vars = merged
+			}
+			res = graphql.ExecutePlan(pp.plan, graphql.ExecuteParams{Schema: *pp.schema, Args: vars, Context: ctx})
+		} else {
+			res = graphql.Do(graphql.Params{Schema: *pp.schema, RequestString: rq.Query, VariableValues: vars, Context: ctx})
+		}
 	}()
 	watchdog := time.NewTimer(10 * time.Second)
-	select {
-	case <-done:
-		watchdog.Stop()
-	case <-watchdog.C:
-		return goResult{Escaped: "timeout: graphql.Do did not return within 10 s"}
+	defer watchdog.Stop()
+	timedOut := false
+	if mode == 2 {
+		select {
+		case <-gate.entered:
+			cancel()
+		case <-done:
+		case <-watchdog.C:
+			timedOut = true
+		}
+	}
+	if !timedOut {
+		select {
+		case <-done:
+		case <-watchdog.C:
+			timedOut = true
+		}
 	}
 	mu.Lock()
-	log := wireLog(curLog)
+	nNow := len(curLog)
 	mu.Unlock()
-	g := goResult{Log: log, Errors: [][]int{}, Keys: []int{}, Messages: []string{}}
+	atomic.StoreInt32(&gate.mode, 0)
+	close(gate.release)
+	if timedOut {
+		return goResult{Escaped: "timeout: the call did not return within 10 s"}
+	}
+	drained := true
+	if mode != 0 {
+		// the executor goroutine is not waited for by ExecutePlan when the context is done: let it finish
+		deadline := time.Now().Add(10 * time.Second)
+		for runtime.NumGoroutine() > baseline {
+			if time.Now().After(deadline) {
+				drained = false
+				break
+			}
+			time.Sleep(20 * time.Microsecond)
+		}
+	}
+	mu.Lock()
+	all := wireLog(curLog)
+	mu.Unlock()
+	g := goResult{Log: all[:nNow], Late: all[nNow:], Errors: [][]int{}, Keys: []int{}, Messages: []string{}}
+	if !drained {
+		g.Escaped = "the executor goroutine did not finish within 10 s after the call returned"
+		return g
+	}
 	if escaped != nil {
-		g.Escaped = fmt.Sprintf("panic escaped graphql.Do: %v", escaped)
+		g.Escaped = fmt.Sprintf("panic escaped the call: %v", escaped)
 		return g
 	}
 	if res == nil {
-		g.Escaped = "graphql.Do returned nil"
+		g.Escaped = "the call returned nil"
 		return g
 	}
 	for _, e := range res.Errors {
@@ -452,13 +768,14 @@ func (s specT) ok() bool { return s.Order && s.Balanced && s.Nested && s.Reporte
 type modelResp struct {
 	M struct {
 		Log     [][]int `json:"log"`
+		Late    [][]int `json:"late"`
 		Errors  [][]int `json:"errors"`
 		Keys    []int   `json:"keys"`
 		HasData bool    `json:"hasData"`
 	} `json:"M"`
-	SpecM specT `json:"specM"`
-	SpecG specT `json:"specG"`
-	SharedName bool `json:"sharedName"`
+	SpecM      specT `json:"specM"`
+	SpecG      specT `json:"specG"`
+	SharedName bool  `json:"sharedName"`
 }
 
 func sortedErrs(e [][]int) string {
@@ -476,9 +793,57 @@ func sortedInts(a []int) string {
 	return fmt.Sprint(b)
 }
 
+func fld(kind string, outcome int, children ...fieldSpec) fieldSpec {
+	return fieldSpec{Kind: kind, Outcome: outcome, Children: children, DirVar: -1}
+}
+func inc(f fieldSpec, v int) fieldSpec { f.Dir, f.DirVar = 1, v; return f }
+func skp(f fieldSpec, v int) fieldSpec { f.Dir, f.DirVar = 2, v; return f }
+func lit(f fieldSpec, dir int, val bool) fieldSpec {
+	f.Dir, f.DirVar, f.DirLit = dir, -1, val
+	return f
+}
+
+func boolVars(vals ...bool) map[string]interface{} {
+	m := map[string]interface{}{}
+	for i, v := range vals {
+		m["w"+strconv.Itoa(i)] = v
+	}
+	return m
+}
+
+// nExecuted: how many entries of the executed-field list really run (up to and including the first fatal one)
+func nExecuted(fields []int) int {
+	for i, o := range fields {
+		if o >= 3 {
+			return i + 1
+		}
+	}
+	return len(fields)
+}
+
+type dirShape struct {
+	name     string
+	fs       []fieldSpec
+	mutation bool
+	varsA    map[string]interface{}
+	varsB    map[string]interface{}
+}
+
+func directiveShapes() []dirShape {
+	return []dirShape{
+		{"dir-field", []fieldSpec{fld("f", 0), inc(fld("f", 0), 0)}, false, boolVars(true), boolVars(false)},
+		{"dir-nested", []fieldSpec{skp(fld("f", 0), 0), inc(fld("o", 0, fld("f", 0), skp(fld("f", 1), 0)), 1)}, false, boolVars(false, true), boolVars(true, true)},
+		{"dir-inline", []fieldSpec{inc(fld("inline", 0, fld("f", 0), fld("f", 1)), 0), fld("f", 2)}, false, boolVars(true), boolVars(false)},
+		{"dir-spread", []fieldSpec{skp(fld("spread", 0, fld("f", 0), fld("o", 0, inc(fld("f", 0), 1))), 0), fld("g", 0)}, false, boolVars(false, true), boolVars(false, false)},
+		{"dir-in-fragment", []fieldSpec{fld("spread", 0, inc(fld("f", 0), 0), fld("f", 0)), fld("f", 1)}, false, boolVars(true), boolVars(false)},
+		{"dir-literal", []fieldSpec{lit(fld("f", 0), 1, true), lit(fld("f", 0), 2, true), fld("f", 0)}, false, nil, nil},
+		{"dir-mutation", []fieldSpec{inc(fld("f", 0), 0), skp(fld("g", 3), 1), fld("f", 0)}, true, boolVars(true, false), boolVars(true, true)},
+	}
+}
+
 func main() {
 	run := hx.Begin("C17")
-	run.Res.Rule = "0-4 instrumented extensions x request of every outcome class (syntax, validation, operation selection, variable coercion, executed fields ok/err/panic incl. non-null root failures, nested selections, queries and mutations) x fault assignment (each of the 11 hooks per extension: ok or panic with error/string/int); all single and double faults for 1 and 2 extensions are enumerated over the fixed request shapes, the rest is random. non-trivial = at least one extension and (at least one faulty hook or a request that is not a plain success); distinct by (extension configs, request text, variables)"
+	run.Res.Rule = "0-4 instrumented extensions x request of every outcome class (syntax, validation, operation selection, variable coercion, executed fields ok/err/panic incl. non-null root failures, nested selections, variable-driven and literal @skip/@include on fields / inline fragments / fragment spreads, queries and mutations) x fault assignment (each of the 11 hooks per extension: ok or panic with error/string/int) x entry point (graphql.Do; Do after AddExtensions; PlanQuery or PlanCache.Get before or after AddExtensions followed by ExecutePlan, the plan executed again with other variable values) x request context (live; cancelled or past its deadline before the call; cancelled / deadline expiring while a resolver runs; cancelled inside a finish hook). All single and double faults for 1 and 2 extensions are enumerated over the fixed request shapes on Do with a live context; no fault and all single faults over the directive shapes x entry points and over the context states; the rest is random. non-trivial = at least one extension and (a faulty hook, or a request that is not a plain success, or a directive, or an entry other than Do, or a context that is not live); distinct by (extension configs, request text, variables, entry, context state)"
 	if err := buildSchemas(); err != nil {
 		run.CheckError("cannot build schemas: " + err.Error())
 		run.Finish()
@@ -492,15 +857,29 @@ func main() {
 	}
 	defer drv.Close()
 
-	one := func(c caseT, origin string) {
-		g := runGo(c)
+	oneExec := func(c caseT, pp prepared, rq reqT, origin string, nth int) {
+		g := runGo(c, pp, rq)
 		var m modelResp
-		wire := map[string]interface{}{"exts": c.Exts, "req": map[string]interface{}{"class": c.Req.Class, "fields": c.Req.Fields}, "log": g.Log, "errors": g.Errors}
+		wire := map[string]interface{}{"exts": c.Exts, "req": map[string]interface{}{"class": rq.Class, "fields": rq.Fields}, "log": g.Log, "late": g.Late, "errors": g.Errors}
 		if g.Log == nil {
 			wire["log"] = [][]int{}
 		}
+		if g.Late == nil {
+			wire["late"] = [][]int{}
+		}
 		if g.Errors == nil {
 			wire["errors"] = [][]int{}
+		}
+		if pp.plan != nil {
+			wire["entry"] = "plan"
+		}
+		if rq.Class == "exec" {
+			switch c.Ctx {
+			case "cancelled-before", "deadline-before":
+				wire["ctx"] = -1
+			case "cancel-in-resolver", "deadline-in-resolver":
+				wire["ctx"] = c.CtxAt
+			}
 		}
 		if err := drv.Ask(wire, &m); err != nil {
 			run.CheckError(err.Error())
@@ -514,16 +893,32 @@ func main() {
 				}
 			}
 		}
-		plainSuccess := c.Req.Class == "exec"
-		for _, o := range c.Req.Fields {
+		plainSuccess := rq.Class == "exec"
+		for _, o := range rq.Fields {
 			if o != 0 {
 				plainSuccess = false
 			}
 		}
+		entry := c.Entry
+		if entry == "" {
+			entry = "do"
+		}
+		ctxMode := c.Ctx
+		if ctxMode == "" {
+			ctxMode = "live"
+		}
 		run.Tag("origin:" + origin)
-		run.Tag("class:" + c.Req.Class)
-		run.Tag("shape:" + c.Req.Shape)
+		run.Tag("class:" + rq.Class)
+		run.Tag("shape:" + rq.Shape)
 		run.Tag("exts:" + strconv.Itoa(len(c.Exts)))
+		run.Tag("entry:" + entry)
+		run.Tag("ctx:" + ctxMode)
+		if nth == 2 {
+			run.Tag("plan-reused-with-other-variables")
+		}
+		if strings.Contains(rq.Query, "(if: $") {
+			run.Tag("variable-driven-directive")
+		}
 		switch {
 		case nFault == 0:
 			run.Tag("faults:0")
@@ -532,7 +927,7 @@ func main() {
 		default:
 			run.Tag("faults:3+")
 		}
-		if strings.HasPrefix(c.Req.Query, "mutation") {
+		if strings.HasPrefix(rq.Query, "mutation") {
 			run.Tag("mutation")
 		}
 		for _, e := range g.Log {
@@ -540,20 +935,26 @@ func main() {
 				run.Tag("hook-panicked:" + hookNames[e[1]])
 			}
 		}
-		key := hx.Canon(c.Exts) + "|" + c.Req.Query + "|" + hx.Canon(c.Req.Vars)
-		sample := map[string]interface{}{"exts": c.Exts, "query": c.Req.Query, "class": c.Req.Class, "events": len(g.Log), "errors": len(g.Errors)}
-		run.Case(key, len(c.Exts) > 0 && (nFault > 0 || !plainSuccess), sample)
-		replay := map[string]interface{}{"case": c, "go": g, "model": m.M, "spec_on_real_log": m.SpecG, "spec_on_model_log": m.SpecM, "shared_name": m.SharedName}
+		if len(g.Late) > 0 {
+			run.Tag("executor-outlived-the-call")
+		}
+		key := hx.Canon(c.Exts) + "|" + rq.Query + "|" + hx.Canon(rq.Vars) + "|" + entry + "|" + ctxMode + "|" + strconv.Itoa(c.CtxAt)
+		sample := map[string]interface{}{"exts": c.Exts, "query": rq.Query, "vars": rq.Vars, "class": rq.Class, "entry": entry, "ctx": ctxMode, "events": len(g.Log), "late_events": len(g.Late), "errors": len(g.Errors)}
+		run.Case(key, len(c.Exts) > 0 && (nFault > 0 || !plainSuccess || entry != "do" || ctxMode != "live" || strings.Contains(rq.Query, "@")), sample)
+		replay := map[string]interface{}{"case": c, "execution": nth, "request": rq, "go": g, "model": m.M, "spec_on_real_log": m.SpecG, "spec_on_model_log": m.SpecM, "shared_name": m.SharedName}
 
 		if g.Escaped != "" {
 			run.Violation("the request was taken down: "+g.Escaped, replay, false)
 			return
 		}
-		corr := hx.Canon(g.Log) == hx.Canon(m.M.Log) && sortedErrs(g.Errors) == sortedErrs(m.M.Errors) &&
-			sortedInts(g.Keys) == sortedInts(m.M.Keys) && g.HasData == m.M.HasData
-		if len(g.Log) == 0 && len(m.M.Log) == 0 {
-			corr = sortedErrs(g.Errors) == sortedErrs(m.M.Errors) && sortedInts(g.Keys) == sortedInts(m.M.Keys) && g.HasData == m.M.HasData
+		same := func(a, b [][]int) bool {
+			if len(a) == 0 && len(b) == 0 {
+				return true
+			}
+			return hx.Canon(a) == hx.Canon(b)
 		}
+		corr := same(g.Log, m.M.Log) && same(g.Late, m.M.Late) && sortedErrs(g.Errors) == sortedErrs(m.M.Errors) &&
+			sortedInts(g.Keys) == sortedInts(m.M.Keys) && g.HasData == m.M.HasData
 		if m.SharedName {
 			// the property (and the theorems) speak about extensions with distinct names: only the correspondence is checked
 			run.Tag("shared-name")
@@ -566,25 +967,38 @@ func main() {
 			return
 		}
 		s := m.SpecG
+		where := "entry " + entry + ", context " + ctxMode
 		if s.ok() {
 			if !corr {
-				run.Violation("real hook log / result differs from the model although the log satisfies the specification: the pipeline no longer calls the hooks the way Ext.run describes", replay, false)
+				run.Violation("real hook log / result differs from the model although the log satisfies the specification: the pipeline no longer calls the hooks the way Ext.run describes ("+where+")", replay, false)
 			}
 			run.Tag("spec:holds")
 			return
 		}
-		// The specification fails on the real log. No defect class is recorded for C17 any more (D-17a..d are
-		// repaired in /repo), so every such case is a violation; the note says which predicate fails and whether the
-		// real log still equals the model (if it does, the theorems of Props/C17 are contradicted: model/driver fault).
+		// The specification fails on the real log. No defect class is recorded for C17 (D-17a..d are repaired in
+		// /repo), so every such case is a violation; the note says which predicate fails and whether the real log
+		// still equals the model (if it does, the theorems of Props/C17 are contradicted: model/driver fault).
 		switch {
 		case !s.Order:
-			run.Violation(fmt.Sprintf("PhaseOrder fails on the real log: an extension does not see init, parse, validation, execution, one resolve notification per executed field, result collection in this order (log equals model: %v)", corr), replay, false)
+			run.Violation(fmt.Sprintf("PhaseOrder fails on the real log: an extension does not see init, parse, validation, execution, one resolve notification per executed field, result collection in this order (%s; log equals model: %v)", where, corr), replay, false)
 		case !s.Balanced || !s.Nested:
-			run.Violation(fmt.Sprintf("Balanced/Nested fails on the real log: a started phase is not finished exactly once with its outcome, or phases of one extension overlap (balanced=%v nested=%v; log equals model: %v)", s.Balanced, s.Nested, corr), replay, false)
+			run.Violation(fmt.Sprintf("Balanced/Nested fails on the real log: a started phase is not finished exactly once with its outcome, or phases of one extension overlap (balanced=%v nested=%v; %s; log equals model: %v)", s.Balanced, s.Nested, where, corr), replay, false)
 		case !s.Reported:
-			run.Violation(fmt.Sprintf("a panicking hook is not reported in Result.Errors (log equals model: %v)", corr), replay, false)
+			run.Violation(fmt.Sprintf("a panicking hook is not reported in Result.Errors (%s; log equals model: %v)", where, corr), replay, false)
 		default:
-			run.Violation(fmt.Sprintf("panic isolation fails on the real log (isolated=%v; log equals model: %v)", s.Isolated, corr), replay, false)
+			run.Violation(fmt.Sprintf("panic isolation fails on the real log (isolated=%v; %s; log equals model: %v)", s.Isolated, where, corr), replay, false)
+		}
+	}
+
+	one := func(c caseT, origin string) {
+		pp := prepare(c)
+		if pp.err != "" {
+			run.CheckError("cannot prepare case (" + c.Entry + "): " + pp.err + " for " + c.Req.Query)
+			return
+		}
+		oneExec(c, pp, c.Req, origin, 1)
+		if c.Req2 != nil && pp.plan != nil {
+			oneExec(c, pp, *c.Req2, origin, 2)
 		}
 	}
 
@@ -663,7 +1077,98 @@ func main() {
 	run.Res.Extra["enumerated_single_double_fault_cases"] = enumerated
 	run.Res.Extra["enumeration"] = "all (hook slot) singles x 3 panic values and all slot pairs (quick: 3 of the 9 panic-value pairs per slot pair, thorough: all 9) for 1 and 2 extensions over the fixed request shapes"
 
-	// ---- 2. random: 0-4 extensions, random names (sometimes shared), densities, requests
+	// ---- 1b. entry points, variable-driven directives and context states: no fault and every single fault, for 1 and 2
+	// extensions. Plans are obtained through PlanQuery / PlanCache before or after Schema.AddExtensions and executed
+	// twice with different variable values; contexts are done before the call, while a resolver runs, or in a finish hook.
+	special := 0
+	entries := []string{"do", "do-addext", "plan", "plan-before", "cache", "cache-before"}
+	ctxShapes := []struct {
+		name string
+		fs   []fieldSpec
+		at   []int
+	}{
+		{"ctx-ok-ok", leafs(0, 0), []int{0, 1}},
+		{"ctx-err-panic-ok", leafs(1, 2, 0), []int{0, 1, 2}},
+		{"ctx-nested", []fieldSpec{fld("o", 0, fld("f", 0), fld("f", 1)), fld("g", 3), fld("f", 0)}, []int{1, 3}},
+	}
+	for nExt := 1; nExt <= 2 && !run.TooManyViolations(); nExt++ {
+		slots := nExt * 11
+		base := func() []extCfg {
+			xs := make([]extCfg, nExt)
+			for i := range xs {
+				xs[i] = extCfg{Name: i + 1, HasRes: true}
+			}
+			return xs
+		}
+		faulted := func(f func(xs []extCfg)) {
+			f(base())
+			for s1 := 0; s1 < slots; s1++ {
+				xs := base()
+				xs[s1/11].Beh[s1%11] = 1 + s1%3
+				f(xs)
+			}
+		}
+		for _, ds := range directiveShapes() {
+			for _, en := range entries {
+				if !run.Thorough() && nExt == 2 && (en == "do-addext" || en == "cache") {
+					continue // quick tier: these two entries with one extension only
+				}
+				ds, en := ds, en
+				faulted(func(xs []extCfg) {
+					c := caseT{Exts: xs, Req: execReqV(ds.name, ds.fs, ds.mutation, ds.varsA), Entry: en}
+					if ds.varsB != nil {
+						r2 := execReqV(ds.name, ds.fs, ds.mutation, ds.varsB)
+						if en == "do" || en == "do-addext" {
+							one(c, "enum-special")
+							special++
+							c = caseT{Exts: xs, Req: r2, Entry: en}
+						} else {
+							c.Req2 = &r2
+						}
+					}
+					one(c, "enum-special")
+					special++
+				})
+			}
+		}
+		for _, cs := range ctxShapes {
+			for _, en := range []string{"do", "plan"} {
+				cs, en := cs, en
+				rq := execReq(cs.name, cs.fs, false)
+				for _, mode := range []string{"cancelled-before", "deadline-before", "cancel-in-finish"} {
+					mode := mode
+					faulted(func(xs []extCfg) {
+						one(caseT{Exts: xs, Req: rq, Entry: en, Ctx: mode}, "enum-special")
+						special++
+					})
+				}
+				for _, at := range cs.at {
+					at := at
+					faulted(func(xs []extCfg) {
+						one(caseT{Exts: xs, Req: rq, Entry: en, Ctx: "cancel-in-resolver", CtxAt: at}, "enum-special")
+						special++
+					})
+				}
+				// a deadline that expires while the resolver runs: fault-free and a few faults
+				one(caseT{Exts: base(), Req: rq, Entry: en, Ctx: "deadline-in-resolver", CtxAt: cs.at[0]}, "enum-special")
+				special++
+				for _, h := range []int{hExecEnd, hResStart, hResEnd, hGetResult} {
+					xs := base()
+					xs[nExt-1].Beh[h] = 2
+					one(caseT{Exts: xs, Req: rq, Entry: en, Ctx: "deadline-in-resolver", CtxAt: cs.at[len(cs.at)-1]}, "enum-special")
+					special++
+				}
+			}
+			// a context that is done does not matter for requests that never reach ExecutePlan's select
+			for _, cl := range []string{"syntax", "validation", "operation", "variable"} {
+				one(caseT{Exts: base(), Req: fixedReq(cl, 0), Ctx: "cancelled-before"}, "enum-special")
+				special++
+			}
+		}
+	}
+	run.Res.Extra["enumerated_entry_directive_context_cases"] = special
+
+	// ---- 2. random: 0-4 extensions, random names (sometimes shared), densities, requests, entries, contexts
 	n := run.N(6000, 400000)
 	for i := 0; i < n && !run.TooManyViolations(); i++ {
 		r := hx.Fork(run.Seed, i)
@@ -683,46 +1188,97 @@ func main() {
 				}
 			}
 		}
-		var rq reqT
+		c := caseT{Exts: xs}
 		switch r.Intn(10) {
 		case 0:
-			rq = fixedReq("syntax", r.Intn(100))
+			c.Req = fixedReq("syntax", r.Intn(100))
 		case 1:
-			rq = fixedReq("validation", r.Intn(100))
+			c.Req = fixedReq("validation", r.Intn(100))
 		case 2:
 			if r.Chance(1, 2) {
-				rq = fixedReq("operation", r.Intn(100))
+				c.Req = fixedReq("operation", r.Intn(100))
 			} else {
-				rq = fixedReq("variable", r.Intn(100))
+				c.Req = fixedReq("variable", r.Intn(100))
+				if r.Chance(1, 2) {
+					c.Entry = []string{"plan", "plan-before", "cache", "cache-before"}[r.Intn(4)]
+				}
 			}
 		default:
 			pFail := []int{0, 1, 3}[r.Intn(3)]
-			var gen func(depth int, root bool) []fieldSpec
-			gen = func(depth int, root bool) []fieldSpec {
+			pDir := []int{0, 0, 2, 4}[r.Intn(4)] // of 8: how often a selection carries @include/@skip
+			nVar := 0
+			dir := func(f fieldSpec) fieldSpec {
+				if !r.Chance(pDir, 8) {
+					return f
+				}
+				f.Dir = 1 + r.Intn(2)
+				if r.Chance(1, 5) {
+					f.DirVar, f.DirLit = -1, r.Chance(1, 2)
+				} else {
+					f.DirVar = r.Intn(3)
+					if f.DirVar >= nVar {
+						nVar = f.DirVar + 1
+					}
+				}
+				return f
+			}
+			var gen func(depth int, root bool, wraps int) []fieldSpec
+			gen = func(depth int, root bool, wraps int) []fieldSpec {
 				k := r.Range(1, 3)
 				fs := make([]fieldSpec, 0, k)
 				for j := 0; j < k; j++ {
-					f := fieldSpec{Kind: "f"}
+					f := fld("f", 0)
 					if r.Chance(pFail, 6) {
 						f.Outcome = 1 + r.Intn(2)
 					}
 					switch {
+					case pDir > 0 && wraps < 2 && r.Chance(1, 5):
+						f = fld([]string{"inline", "spread"}[r.Intn(2)], 0, gen(depth, root, wraps+1)...)
 					case depth < 2 && r.Chance(1, 4):
 						f.Kind = "o"
-						f.Children = gen(depth+1, false)
+						f.Children = gen(depth+1, false, wraps)
 					case root && r.Chance(1, 5):
 						f.Kind = "g"
 						if f.Outcome != 0 {
 							f.Outcome += 2
 						}
 					}
-					fs = append(fs, f)
+					fs = append(fs, dir(f))
 				}
 				return fs
 			}
-			rq = execReq("random", gen(0, true), r.Chance(1, 4))
+			fs := gen(0, true, 0)
+			mutation := r.Chance(1, 4)
+			rv := func() map[string]interface{} {
+				return boolVars(r.Chance(1, 2), r.Chance(1, 2), r.Chance(1, 2))
+			}
+			c.Req = execReqV("random", fs, mutation, rv())
+			if r.Chance(2, 5) {
+				c.Entry = entries[r.Intn(len(entries))]
+				if (c.Entry != "do" && c.Entry != "do-addext") && r.Chance(2, 3) {
+					r2 := execReqV("random", fs, mutation, rv())
+					c.Req2 = &r2
+				}
+			}
+			// context states: only with distinct names, at least one field that runs, and no second execution
+			if !shared && c.Req2 == nil && nExecuted(c.Req.Fields) >= 1 && r.Chance(1, 4) {
+				switch r.Intn(8) {
+				case 0, 1:
+					c.Ctx = "cancelled-before"
+				case 2:
+					c.Ctx = "deadline-before"
+				case 3:
+					c.Ctx = "cancel-in-finish"
+				default:
+					c.Ctx = "cancel-in-resolver"
+					c.CtxAt = r.Intn(nExecuted(c.Req.Fields))
+					if r.Chance(1, 30) {
+						c.Ctx = "deadline-in-resolver"
+					}
+				}
+			}
 		}
-		one(caseT{Exts: xs, Req: rq}, "random")
+		one(c, "random")
 	}
 	run.Finish()
 }
